@@ -84,6 +84,20 @@ Theorem C13_unlink_resets_view : forall pk mw st i st' s,
 Proof. exact unlink_view. Qed.
 Print Assumptions C13_unlink_resets_view.
 
+(* link_with and the dict of derived views: it is shared exactly when flow, T/P and (for a single-phase stream) the
+   phase are all linked -- then both indexers hold the same data and the same Phase object, so a view built through
+   either is right for both -- and replaced by a new empty dict for every other flag subset *)
+Theorem C13_link_view_exact : forall st i j fl ph tp st' s o,
+  nth_error (ss st) i = Some s -> nth_error (ss st) j = Some o -> imol s <> imol o ->
+  link_step st i j fl ph tp = (st', None) ->
+  (tp && fl && (ph || is_multi (hp st) s) = false -> view_of st' (imol s) = None) /\
+  (tp && fl && (ph || is_multi (hp st) s) = true ->
+     view_of st' (imol s) = view_of st' (imol o) /\
+     forall k pb d, nth_error (hp st') (imol o) = Some (CIdxC k pb d) ->
+       exists k', nth_error (hp st') (imol s) = Some (CIdxC k' pb d)).
+Proof. exact link_view. Qed.
+Print Assumptions C13_link_view_exact.
+
 (* the full statement: after unlink, stream i shares nothing with ANY other stream object of the store *)
 Definition C13_unlink_sep_statement : Prop :=
   forall pk mw st i j st' a b, hwf (hp st) -> Forall (swf (hp st)) (ss st) -> i <> j ->
@@ -216,4 +230,10 @@ Example C13_ex_view_after_unlink :
   es = [None; None; None; None] /\
   mass_obs PK MWS st1 (nth 0 (ss st1) dflt) = [[80%Q; (3 * 32)%Q; (0 * 8)%Q]] /\
   mass_obs PK MWS st1 (nth 2 (ss st1) dflt) = [[(0 * 16)%Q; (3 * 32)%Q; (0 * 8)%Q]].
+Proof. vm_compute. repeat split; reflexivity. Qed.
+
+(* link_with(flow, TP) without the phase between a liquid and a gas stream: each mass view reports its own phase *)
+Example C13_ex_view_phase_not_shared :
+  let '(st1, es) := run PK MWS ex_state [OLink 2 0 true false true; OReadMass 0; OReadMass 2] in
+  es = [None; None; None] /\ mass_phases st1 (nth 0 (ss st1) dflt) = [3] /\ mass_phases st1 (nth 2 (ss st1) dflt) = [2].
 Proof. vm_compute. repeat split; reflexivity. Qed.
